@@ -16,18 +16,28 @@ CLAIMS = {
             "(C01.history_refines, updateCore_refines, never_written_reads_sentinel, clear_spec); correspondence of the "
             "model with /repo on generated histories incl. every read path and a malformed stream", NOTE, TECH, "6 C01"),
     'C02': ("Lean proof that valid_pixels / n_valid / coverage_map / valid_pixels_single_covpix / fracdet agree with the "
-            "dense valid set for every layout-invariant state and that the n_valid cache is coherent; correspondence "
-            "with query-mutate-query histories over eleven observers", NOTE, TECH, "6 C02"),
+            "dense valid set for every layout-invariant state and that the n_valid cache is coherent; GLOBAL: along every "
+            "protocol history over the whole API model the cached count is never stale and n_valid answers the number of "
+            "valid cells (reachable_cache_fresh, reachable_nvalid, by induction over all ~50 operations); correspondence "
+            "with query-mutate-query histories over eleven observers", NOTE, TECH, "6 C02 / AB.9"),
     'C04': ("Lean proof that make_empty / growth / update / ranges / scalar and boolean operators / conversions preserve "
             "the published layout invariant (Inv), with a verified executable checker (checkInv_iff) run on the REAL "
-            "arrays after every call of every generator", NOTE, TECH, "6 C04"),
+            "arrays after every call of every generator; GLOBAL: every map and file reachable through ANY protocol history "
+            "over the whole executable API model obeys the layout (reachable_wf, reachable_get_wf, reachable_checkInv, "
+            "reachable_file_wf: induction over all ~50 operations incl. views, files, refused calls)", NOTE, TECH,
+            "6 C04 / AB.9"),
     'C08': ("Lean proof that the slice path of range updates equals the explicit-pixel update for all range arrays "
-            "(ranges_eq_explicit, updateRanges_refines, expand_upgrade); twin-path correspondence", NOTE +
-            "add over a non-zero sentinel with overlapping rows is proved only for duplicate-free expansions "
-            "(ranges_eq_explicit_pre_partial; the full statement is false when an intermediate sum equals the sentinel).",
-            TECH, "6 C08"),
+            "(ranges_eq_explicit, updateRanges_refines, expand_upgrade); API LEVEL: both paths of the range update return "
+            "equal values at every pixel for every well-formed map, operation, rows (overlapping, repeated, empty) and "
+            "value, views included (api_ranges_agree), raise together (api_ranges_error_iff_partial), apiUpdate refines "
+            "the dense specification, refused updates store nothing; twin-path correspondence", NOTE +
+            "the core-level lemma ranges_eq_explicit_pre_partial keeps its duplicate-free hypothesis; the API-level "
+            "theorem does not need it since the two-pass fix F66.", TECH, "6 C08 / AB.9"),
     'C11': ("Lean proof of the coverage-scoped semantics of boolean map/constant operators, invert involution, copying "
-            "= in-place, lattice laws on common coverage; correspondence over packed/unpacked mixes", NOTE, TECH, "6 C11"),
+            "= in-place, lattice laws on common coverage; API LEVEL (29 theorems): exact error conditions, dense formula "
+            "and coverage of a op b / a op const / invert for any mix of packed and plain operands, storage-blindness, "
+            "exact characterisation of where commutativity / De Morgan fail outside the common coverage; correspondence "
+            "over packed/unpacked mixes", NOTE, TECH, "6 C11 / AB.9"),
     'C12': ("Lean proof that scalar operators, apply_mask, astype, as_bit_packed_map act on exactly the valid pixels and "
             "preserve layout; correspondence over dtypes, sentinels, in-place/copying twins", NOTE, TECH, "6 C12"),
     'C13': ("Lean proof of the bit-set semantics of wide-mask rows (pack_testBit, set/clear/xor/and/check specs, "
@@ -40,7 +50,9 @@ CLAIMS = {
     'C03': ("Lean proof of the serialisation logic: full read = identity, coverage read = coverage mask, partial read = "
             "restriction to the requested covered coverage pixels with exact rejection conditions (read_partial_spec, "
             "read_partial_rejects_iff), read-back map interchangeable (C10.Same); correspondence incl. raw astropy "
-            "inspection of the written extensions, metadata, second-generation files and continuation histories",
+            "inspection of the written extensions, metadata, second-generation files and continuation histories; API LEVEL "
+            "and GLOBAL: apiRead(apiWrite m) = m iff m is file-typed, and unconditionally for every map reachable through "
+            "any protocol history (reachable_read_write_full, reachable_read_pixels, reachable_write_read_world)",
             NOTE + "astropy FITS encoding / compression / header formatting trusted; Parquet not exercised (pyarrow "
             "absent, the property conditions on it).", TECH, "6 C03"),
     'C05': ("Lean proof that every _PackedBoolArray method refines the numpy boolean-array operation on the bit list "
@@ -86,7 +98,11 @@ CLAIMS = {
             NOTE + "in_memory=False (fitsio) cannot run here and is not claimed; known finding F50.", TECH, "6 C18"),
     'C19': ("Lean proof that degrade-on-read of a written file equals reading (fully or by any pixel request) and "
             "degrading in memory: same rejections, same values, same coverage, weighted form included (dor_eq, "
-            "dor_full, dorW_spec); four-route correspondence", NOTE + "known findings F36, F47.", TECH, "6 C19"),
+            "dor_full, dorW_spec); API LEVEL (31 theorems): apiDegradeOnRead agrees with read-then-apiDegrade for every "
+            "well-formed file, order, reduction and pixel request (same error kind or equal kind / sentinel / content), "
+            "weighted form under equal validity, explicit output dtype / sentinel rules of both paths, documented "
+            "asymmetries outside the quantifier as theorems; four-route correspondence",
+            NOTE + "known findings F36, F47, F68.", TECH, "6 C19 / AB.9"),
     'C20': ("Lean proof of the fast generator's child arithmetic, of the rejection loop (exactly n points, all valid, "
             "first n valid candidates of the stream, divergence iff no valid candidate) and of the wrapped sampling "
             "window (covers every per-pixel interval modulo one turn; witness for the clipped pre-fix window); "
